@@ -15,14 +15,14 @@ for d, dec, enc in (('res', 'out_decompressor', 'response'), ('req', 'req_decomp
                    contracts_inc=['sm.h', 'c07_decomp.h'],
                    harness='void HARNESS(void) { htp_tx_data_t *d; %s(d); CANARY(); }' % fn,
                    defs=D1, min_obl=40, assumes=A1,
-                   sub='%s decompressor sink: entity_len += d->len; the hooks see exactly (d->data, d->len, tx) once; HTP_OK <=> hooks OK and entity_len <= max(compression_bomb_limit, 2048*message_len); outside the bound => HTP_ERROR + ERROR log and nothing else' % enc))
+                   sub='%s decompressor sink: entity_len += d->len; the hooks see exactly (d->data, d->len, tx) once; HTP_OK <=> hooks OK and entity_len <= max(compression_bomb_limit, 2048*message_len); outside the bound => HTP_ERROR and nothing else (frame)' % enc))
 
 # ---- unit 2: the inflate loop ---------------------------------------------------------------------------------------------
 D2 = {'quick': {'C07_UNIT_DECOMPRESS': 1, 'C07_INCAP': 65536, 'KNOWN_F_C07_STALE_REDELIVERY': 1, 'C07_RESTART_MIN': 3}, 'thorough': {'C07_INCAP': '((size_t) UINT32_MAX + 4096)'}}
 ZSTUBS = ['inflate', 'inflateInit2_', 'inflateEnd', 'crc32', 'LzmaDec_Allocate', 'LzmaDec_Init', 'LzmaDec_Free', 'LzmaDec_DecodeToBuf']
 A2 = ['zlib (inflate, inflateInit2_, inflateEnd, crc32) and the LZMA SDK (LzmaDec_Allocate/Init/Free/DecodeToBuf) replaced by frame contracts: they consume a prefix of the input window, fill a prefix of the output window and return ANY code; their call-site requirements (valid windows) are proved',
       'for the variant only: inflate == Z_OK / LzmaDec_DecodeToBuf == SZ_OK implies progress (input consumed or output produced), and the sink accepts a bounded number of bytes per call (ghost budget = the bomb inequality of unit 1 with message_len fixed during the call)',
-      'downstream sink (drec->super.callback) replaced by a stub returning any status; single / innermost layer (next == NULL): the recursive next-layer call is unreachable in this unit (see c07_decompress_layers)',
+      'downstream sink (drec->super.callback) replaced by a stub returning any status; single / innermost layer (next == NULL): the recursive next-layer call is unreachable in this unit (dfcc asserts no_recursive_call); an outer layer hands its buffers to the next layer through the same three call sites, see notes/c07.md',
       'the `goto restart` back edge (no loop-contract syntax exists for goto loops) is unwound (4 - restart_min) times before contract instrumentation; the unwinding assertion is part of the obligations, so the bound is proved from the restart counter, not assumed',
       'input chunk <= C07_INCAP bytes; decompressor object well-formed on entry (output cursor inside the 8 KiB buffer, zlib_initialized in 0..4, header_len <= 14) - re-established on every exit (P0)',
       'KNOWN_F_C07_STALE_REDELIVERY defined: obligation S4 (no non-empty delivery on a stream that was dead on entry) is claimed only when the output window is not full / at end-of-body empty; the probe run without the macro fails (finding c07_stale_buffer_redelivery)']
@@ -34,7 +34,7 @@ LOOP2 = dict(
          'drec->zlib_initialized == HTP_COMPRESSION_LZMA ==> rc == 0',
          'g_c07_cb_failed == 0', 'C07_INV_DEAD(drec)'],
     dec='drec->stream.avail_in, g_c07_budget, drec->stream.avail_out')
-for nm, rmin, th in (('c07_decompress', 3, False),):
+for nm, rmin, th in (('c07_decompress', 3, False),):  # rmin = 2 (one re-entry, unwind 2) was tried: dfcc then attributes the error path to the inner loop (frame failures), see notes
     D2x = {'quick': dict(D2['quick'], C07_RESTART_MIN=rmin), 'thorough': D2['thorough']}
     UNITS.append(U(name=nm, props=['C07', 'C01'], kind='contract', src=['htp_decompressors.c'], enforce='htp_gzip_decompressor_decompress',
                    replace=['c07_sink'] + ZSTUBS + ['htp_gzip_decompressor_restart', 'memcpy/contract_c07_memcpy', 'htp_log/contract_c07_htp_log'],
@@ -60,19 +60,71 @@ UNITS.append(U(name='c07_probe', props=['C07', 'C01'], kind='contract', src=['ht
                harness='void HARNESS(void) { const unsigned char *p; size_t n; htp_gzip_decompressor_probe(p, n); CANARY(); }',
                sub='gzip header probe: reads only inside the chunk, skip count <= chunk length, terminates'))
 
+UNITS.append(U(name='c07_create', props=['C07', 'C18', 'C01'], kind='contract', src=['htp_decompressors.c'], enforce='htp_gzip_decompressor_create',
+               replace=['inflateInit2_', 'inflateEnd', 'htp_log/contract_c07_htp_log'], contracts_inc=['c07_decomp.h'], defs=D2, min_obl=30,
+               harness='void HARNESS(void) { htp_connp_t *c; enum htp_content_encoding_t f; htp_gzip_decompressor_create(c, f); CANARY(); }',
+               assumes=['inflateInit2_ / inflateEnd replaced by frame contracts (any result); calloc / malloc may fail'],
+               sub='factory: NULL or an object satisfying the invariant c07_decompress requires (cursor at the start of a fresh 8 KiB buffer, coding recorded, restart 0, unlinked); only gzip / deflate / lzma yield an object; LZMA with lzma_memlimit == 0 or response_lzma_layer_limit <= 0 is created in passthrough mode (no LZMA layer applied)'))
+
 # ---- unit 3: building the response decompressor chain ------------------------------------------------------------------------
-D3 = {'quick': {'C07_UNIT_CHAIN': 1, 'C07_MAXLAYERS': 2, 'C07_CECAP': 64, 'CHUNK_CAP': 4096}, 'thorough': {'C07_CECAP': 1024}}
-UNITS.append(U(name='c07_chain', props=['C07', 'C18', 'C01'], kind='bounded', src=['htp_transaction.c'], enforce='htp_tx_state_response_headers',
-               replace=['htp_table_get_c/contract_c07_htp_table_get_c', 'bstr_cmp_c_nocasenorzero/contract_c07_bstr_cmp_c_nocasenorzero',
-                        'bstr_util_cmp_mem/contract_c07_bstr_util_cmp_mem', 'bstr_util_mem_index_of_c_nocase/contract_c07_bstr_util_mem_index_of_c_nocase',
-                        'htp_connp_res_receiver_finalize_clear/contract_c07_htp_connp_res_receiver_finalize_clear', 'htp_hook_run_all/contract_c07_htp_hook_run_all',
-                        'htp_tx_res_destroy_decompressors/contract_c07_htp_tx_res_destroy_decompressors', 'get_token/contract_c07_get_token',
-                        'htp_gzip_decompressor_create/contract_c07_htp_gzip_decompressor_create', 'htp_log/contract_c07_htp_log'],
-               contracts_inc=['sm.h', 'c07_decomp.h'],
-               pre_instrument=['--unwindset', 'htp_tx_state_response_headers.0:4', '--unwinding-assertions'],
-               harness='void HARNESS(void) { htp_tx_t *t; htp_tx_state_response_headers(t); CANARY(); }',
-               defs=D3, min_obl=100, timeout=(150, 600), objbits=12,
-               bound='response_decompression_layer_limit in 1..2 (default 2): the chain loop is unwound 4 times and the unwinding assertion proves that this is enough for every header value; limit 0 (= unlimited) and limits > 2 are not covered',
-               assumes=['header lookup, string comparisons, tokenizer, hooks, receiver finalisation, old-chain destruction and the decompressor factory are replaced by frame stubs with arbitrary results (so every Content-Encoding value, token sequence and hook outcome is covered); the factory returns NULL or a fresh unlinked object and counts layers / LZMA layers',
-                        'the tokenizer stub returns a token length <= remaining input; the real get_token is not verified here'],
-               sub='chain construction: layers created <= response_decompression_layer_limit; LZMA layers from a coding list <= response_lzma_layer_limit; every created layer is linked from connp->out_decompressor with the response sink as callback, also after a failed creation (no leak, HTP_ERROR returned); the old chain is destroyed first'))
+# (a dfcc contract unit with the loop unwound needed > 300 s; the loop carries a moving heap pointer `comp`, for which no loop
+#  invariant can be written - pointer_equals is not allowed in invariants -, so this is a plain bounded harness over the real code)
+CHAIN_POST = r"""
+static htp_decompressor_t *c07_objs[8]; static int c07_freed[8]; static int c07_made, c07_made_lzma, c07_failed, c07_fmt_bad, c07_alien;
+static htp_header_t *c07_hdr;
+int nondet_int(void);
+htp_decompressor_t *htp_gzip_decompressor_create(htp_connp_t *connp, enum htp_content_encoding_t format) {
+  if (format != HTP_COMPRESSION_GZIP && format != HTP_COMPRESSION_DEFLATE && format != HTP_COMPRESSION_LZMA) c07_fmt_bad = 1;
+  if (nondet_int() || c07_made >= 8) { c07_failed = 1; return NULL; }
+  htp_decompressor_t *z = calloc(1, sizeof(htp_decompressor_gzip_t));
+  if (z == NULL) { c07_failed = 1; return NULL; }
+  c07_objs[c07_made++] = z; if (format == HTP_COMPRESSION_LZMA) c07_made_lzma++;
+  return z; }
+void htp_gzip_decompressor_destroy(htp_decompressor_t *z) {
+  int found = 0;
+  for (int i = 0; i < 8; i++) if (i < c07_made && c07_objs[i] == z) { VASSERT(!c07_freed[i], "C18 no layer is destroyed twice"); c07_freed[i] = 1; found = 1; }
+  if (!found) c07_alien = 1;
+  free(z); }
+void *htp_table_get_c(const htp_table_t *t, const char *k) { return c07_hdr; }
+int bstr_cmp_c_nocasenorzero(const bstr *b, const char *c) { return nondet_int(); }
+int bstr_util_cmp_mem(const void *a, size_t la, const void *b, size_t lb) { return nondet_int(); }
+int bstr_util_mem_index_of_c_nocase(const void *a, size_t la, const char *c) { return nondet_int(); }
+htp_status_t htp_connp_res_receiver_finalize_clear(htp_connp_t *c) { return nondet_int(); }
+htp_status_t htp_hook_run_all(htp_hook_t *h, void *u) { ((htp_tx_t *) u)->response_content_encoding_processing = (enum htp_content_encoding_t) nondet_int(); return nondet_int(); }
+void htp_log(htp_connp_t *connp, const char *file, int line, enum htp_log_level_t level, int code, const char *fmt, ...) { }
+"""
+CHAIN_H = r"""typedef struct { unsigned char v[C07_N]; size_t lv; int limit; int lzlimit; int enabled; int have_ce; } vin_t;
+void HARNESS(void) { VIN(vin_t);
+  VASSUME(in.lv <= C07_N && in.limit >= 0 && in.limit <= 8);
+  htp_cfg_t *cfg = malloc(sizeof(*cfg)); htp_connp_t *connp = malloc(sizeof(*connp)); htp_tx_t *tx = malloc(sizeof(*tx));
+  bstr *val = malloc(sizeof(bstr) + C07_N); htp_header_t *h = malloc(sizeof(*h));
+  VASSUME(cfg != NULL && connp != NULL && tx != NULL && val != NULL && h != NULL);
+  cfg->response_decompression_layer_limit = in.limit; cfg->response_lzma_layer_limit = in.lzlimit; cfg->response_decompression_enabled = in.enabled;
+  connp->cfg = cfg; connp->out_decompressor = NULL; tx->connp = connp;
+  val->len = in.lv; val->size = C07_N; val->realptr = NULL; for (int i = 0; i < C07_N; i++) ((unsigned char *) val + sizeof(bstr))[i] = in.v[i];
+  h->value = val; c07_hdr = in.have_ce ? h : NULL;
+  htp_status_t rc = htp_tx_state_response_headers(tx);
+  VASSERT(in.limit == 0 || c07_made <= in.limit, "C07 layers created <= response_decompression_layer_limit");
+  VASSERT(c07_made_lzma <= 1 || c07_made_lzma <= in.lzlimit, "C07 LZMA layers <= response_lzma_layer_limit (coding list)");
+  VASSERT(!(c07_made >= 2 && c07_made_lzma >= 1) || c07_made_lzma <= in.lzlimit, "C07 LZMA layer inside a coding list only within response_lzma_layer_limit");
+  VASSERT(!c07_fmt_bad, "C07 the factory is only asked for gzip / deflate / lzma");
+  VASSERT(!c07_failed || rc == HTP_ERROR, "C07 a failed layer creation is reported as HTP_ERROR");
+  /* every created layer is linked from connp->out_decompressor in creation order with the response sink as callback */
+  htp_decompressor_t *p = connp->out_decompressor; int n = 0;
+  for (int i = 0; i < 8; i++) if (p != NULL) { VASSERT(i < c07_made && p == c07_objs[i], "C18 chain holds exactly the created layers, in order");
+      VASSERT(p->callback == htp_tx_res_process_body_data_decompressor_callback, "C07 every layer delivers into the bomb-checking sink"); n++; p = p->next; }
+  VASSERT(p == NULL && n == c07_made, "C18 no created layer is unreachable (also after a failed creation)");
+  /* tear-down by the real owner: everything freed exactly once */
+  htp_tx_res_destroy_decompressors(connp);
+  for (int i = 0; i < 8; i++) VASSERT(i >= c07_made || c07_freed[i], "C18 every created layer is destroyed");
+  VASSERT(!c07_alien && connp->out_decompressor == NULL, "C18 only created layers are destroyed; chain head cleared");
+  free(h); free(val); free(tx); free(connp); free(cfg);
+  CANARY(); }"""
+UNITS.append(U(name='c07_chain', props=['C07', 'C18', 'C01'], kind='bounded', src=['htp_transaction.c'], post=CHAIN_POST, harness=CHAIN_H,
+               defs={'quick': {'C07_N': 6}, 'thorough': {'C07_N': 10}}, flags_add=['--unwind', '12', '--unwinding-assertions', '--memory-leak-check'],
+               min_obl=100, timeout=(150, 900),
+               bound='Content-Encoding value of at most C07_N (6 / 10) bytes, hence at most C07_N tokens; layer limit 0..8; comparison helpers return arbitrary results, so every token is every coding',
+               assumes=['real code: htp_tx_state_response_headers, get_token, htp_tx_res_destroy_decompressors; C stubs with nondeterministic results: header lookup, string comparisons (each token may be any coding), hooks (may rewrite response_content_encoding_processing), receiver finalisation, htp_log',
+                        'decompressor factory / destructor are counting stubs (calloc / free of a real-size object, NULL at any time)'],
+               sub='chain construction on the real loop: layers created <= response_decompression_layer_limit (when non-zero); LZMA layers from a coding list <= response_lzma_layer_limit; every created layer is linked in order with the bomb-checking sink as callback, also after a failed creation (HTP_ERROR, nothing leaks); the real tear-down frees each layer exactly once'))
+
